@@ -28,6 +28,8 @@ CONSTANTS
     NShards, Shard,  \* generation is split over NShards TLC processes: this one observes graphs whose hash is Shard
     MinNodes,     \* calls are made on graphs of at least this many nodes (>= 1)
     BothPresets,  \* TRUE: a dataset may have pre-set AND default options at once
+    KindSeq,      \* <<>>: any kind may come next; else node i has kind KindSeq[i] (a family of one fixed shape)
+    PlainOpts,    \* TRUE: options have neither default nor domain (keeps large DAG families small)
     Sharing,      \* TRUE: a node may be used by several parents (DAGs); FALSE: trees
     Leaves,       \* the dictionary universe: sequence of [p |-> path, vals |-> set of values]
     Family        \* name, for the export
@@ -57,8 +59,8 @@ Cands ==
     \cup (IF want = "allopts" THEN {[k |-> "allopts"]} ELSE {})
     \cup (IF want = "opt"
           THEN {[k |-> "opt", p |-> p, d |-> d, dom |-> dm] :
-                    p \in Paths, d \in OptFree,
-                    dm \in {0} \cup {e \in Free : KindOf(e) = "pred" \/ (KindOf(e) = "val" /\ nodes[e].v.t = "l")}}
+                    p \in Paths, d \in (IF PlainOpts THEN {0} ELSE OptFree),
+                    dm \in {0} \cup (IF PlainOpts THEN {} ELSE {e \in Free : KindOf(e) = "pred" \/ (KindOf(e) = "val" /\ nodes[e].v.t = "l")})}
           ELSE {})
     \cup (IF want = "pred"
           THEN {[k |-> "pred", pred |-> pr, arg |-> a] : pr \in Preds, a \in {e \in Free : KindOf(e) \in {"val", "opt"}}}
@@ -182,7 +184,7 @@ SumSeq(s, i) == IF i > Len(s) THEN 0 ELSE s[i] + SumSeq(s, i + 1)
 GraphHash == SumSeq([i \in 1 .. Len(nodes) |-> i * KindCode(nodes[i].k) + SumSeq(ChildSlots(nodes[i]), 1)], 1)
 
 MCNext ==
-    \/ \E k \in Kinds : Choose(k)
+    \/ \E k \in Kinds : (KindSeq = <<>> \/ (Len(nodes) < Len(KindSeq) /\ KindSeq[Len(nodes) + 1] = k)) /\ Choose(k)
     \/ want # "none" /\ \E nd \in Cands : WellFormed(nd) /\ Add(nd)
     \/ /\ DispVals # <<>> /\ want = "none" /\ cur = NoDict
        /\ \E d \in E, i \in 1 .. Len(DispVals), impl \in (E \ Used) :
@@ -217,8 +219,8 @@ AllObs(P(_, _)) == (cur # NoDict) => P(Root, cur)
 KeysPresentOnlyAt(n, o) == LET k == KeysOf(n, o) IN k.ok => \A p \in k.ks : Has(p, o)
 KeysSufficientAt(n, o) ==
     LET k == KeysOf(n, o) IN
-    (k.ok /\ ~Swallows(n, o)) => LET r == Restrict(o, k.ks) IN
-            ~Swallows(n, r) => /\ Eval(n, r) = Eval(n, o)
+    (k.ok /\ ~KeyBlind(n, o)) => LET r == Restrict(o, k.ks) IN
+            ~KeyBlind(n, r) => /\ Eval(n, r) = Eval(n, o)
                                /\ KeysOf(n, r) = k
 \* C10: validate passing guarantees no missing-option failure
 ValidateGuardsAt(n, o) == (Validate(n, o).ok /\ ~Swallows(n, o)) => LET e == Eval(n, o) IN e.ok \/ e.cls # "KeyNotFound"
@@ -395,6 +397,17 @@ FM_MapPaths == {pA, pSX, pSY}
 FM_Leaves == <<[p |-> pA, vals |-> {I(3)}, extra |-> FALSE],
                [p |-> pSX, vals |-> {I(4)}, extra |-> FALSE],
                [p |-> pB, vals |-> {I(2)}, extra |-> FALSE]>>
+
+\* family "mapswitch" (C03, C10, C11, C05): a Map whose body chooses a branch by the mapped key, so that the
+\* iterations differ in the options they need (the first element's branch needs none, a later one's does)
+FMS_Kinds == {"val", "opt", "switch", "map"}
+FMS_Paths == {pA, pB}
+FMS_Consts == {Lv(<<Str("x"), I(1)>>)}
+FMS_Disp == <<I(1), Str("x")>>
+FMS_MapPaths == {pA}
+FMS_Seq == <<"val", "opt", "opt", "switch", "map">>
+FMS_Leaves == <<[p |-> pA, vals |-> {I(1)}, extra |-> FALSE],
+                [p |-> pB, vals |-> {I(1), I(2)}, extra |-> FALSE]>>
 
 \* family "illsorted" (C04, C10, C11): bare options over dictionaries in which a prefix of the key holds a scalar
 FI_Kinds == {"opt", "val"}
